@@ -1,14 +1,18 @@
 /-
   C01 — encode-then-decode preserves every value.
 
-  Property theorems (CBOR instance proved in full; UBJSON and JSON are covered by the
-  executable mirror + correspondence + oracle, see DESIGN.md §7 and the evidence file).
+  Property theorems: the CBOR and the UBJSON instance are proved in full (encoder mirror →
+  bytes → parser mirror → events → value); the JSON instance is proved in two halves that meet
+  at the RFC 8259 reference decoder (C07 `json_output_decodes`: the encoder's text decodes to
+  the value; C04 `json_reads_value`: the parser reads every grammatical text as the value the
+  reference gives) and is additionally decided by correspondence + oracle (op `rt`).
   A "well-formed event stream describing one value" is the event sequence of a
   contract-conforming tree (`ETree`, SF/Tree.lean): announced lengths are -1 or exact, every
   number lies in the range of its Go kind (`small`).
 -/
 import SF.Proofs.CborEnc
 import SF.Proofs.CborTop
+import SF.Proofs.UbjBridgeTop
 namespace SF.Props.C01
 open SF SF.Cbor SF.Cbor.Cst
 
@@ -60,3 +64,62 @@ example :
   decide +kernel
 
 end SF.Props.C01
+
+
+/-! ## UBJSON -/
+namespace SF.PropsUbj.C01
+open SF SF.Ubjson
+open SF.Ubjson.Parse (P parse events)
+open SF.Ubjson.Enc (approx noBig XTree)
+open SF.Cbor.Enc (small)
+open SF.Props.UbjEnc (ubjBytes)
+
+/-- C01 for UBJSON: for EVERY contract-conforming event tree `t` (`ETree.wf`; numbers in the range
+of their Go kind and announced lengths below 2^63: `small`, the side condition shared with the
+CBOR instance) — any nesting and shape, every scalar kind, all float bit patterns, arbitrary
+byte strings and keys, announced and unknown lengths, NO bound on the size of the document —
+the bytes the UBJSON encoder writes are accepted by the UBJSON parser, which ends in its idle
+state having delivered ONE contract-conforming document (`WF1`) whose value `v` is the value of
+`t` up to the format's documented representation change (`approx`: an unsigned number above
+MaxInt64 arrives as its decimal string — recorded under C11 as a known finding), and EXACTLY the
+value of `t` when no number exceeds MaxInt64.  The reference decoder reads the same `v`. -/
+theorem ubj_roundtrip (t : ETree) (hw : t.wf = true) (hs : small t = true) :
+    ∃ (p : P) (v : Val), parse {} (ubjBytes t) = (p, none) ∧
+      build (events p) = some v ∧ WF1 (events p) = true ∧
+      approx t.value v = true ∧ (noBig t = true → v = t.value) ∧
+      Cst.decodeStream (ubjBytes t) = .ok [v] ∧
+      (∃ vt, p = { evs := p.evs, valueType := vt }) :=
+  SF.Props.UbjBridge.ubj_roundtrip t hw hs
+
+/-- … the same for the EXTENDED events (typed arrays / maps of every element kind, by-reference
+strings and keys): the encoder's bytes for `T.events` round-trip to the value of the expansion -/
+theorem ubj_roundtrip_ext (T : XTree) (hl : T.leavesOk = true) (hw : T.expand.wf = true)
+    (hs : small T.expand = true) :
+    build (expandAll T.events) = some T.expand.value ∧
+    ∃ (p : P) (v : Val), parse {} (Enc.encAll T.events) = (p, none) ∧
+      build (events p) = some v ∧ WF1 (events p) = true ∧
+      approx T.expand.value v = true ∧ (noBig T.expand = true → v = T.expand.value) ∧
+      Cst.decodeStream (Enc.encAll T.events) = .ok [v] ∧
+      (∃ vt, p = { evs := p.evs, valueType := vt }) :=
+  SF.Props.UbjBridge.ubj_roundtrip_ext T hl hw hs
+
+/-- `small` cannot be dropped: `OnInt8(300)` is contract-conforming as an event but outside the
+range of its kind; the encoder writes one byte and the document reads back as 44 -/
+example : (ETree.num .i8 300).wf = true ∧ small (.num .i8 300) = false ∧
+    (match build (events (parse {} (ubjBytes (.num .i8 300))).1) with
+     | some v => v == .int 44
+     | none => false) = true := by
+  decide +kernel
+
+/-- non-vacuity: width-boundary integers, an empty key, unknown and announced lengths, a NaN
+payload; the round trip evaluated by the kernel -/
+example :
+    let t : ETree := .obj (-1) 0 [([], .arr 3 0 [.num .i16 (-200), .num .u8 255, .f64 0x7ff8000000000123]),
+                                   ([0xff], .str [0, 0x80])]
+    t.wf = true ∧ small t = true ∧ noBig t = true ∧
+      (match build (events (parse {} (ubjBytes t)).1) with
+       | some v => v == t.value
+       | none => false) = true := by
+  decide +kernel
+
+end SF.PropsUbj.C01
